@@ -167,7 +167,7 @@ def play_history(rng, song, kind="plain"):
             h.append({"e": "ChanEn", "c": rng.choice(far), "en": 0})
             if rng.random() < 0.6:
                 h += rewind_prelude(rng)
-                h.append({"e": "PlayTicks", "steps": [], "max": 3000})
+                h.append({"e": "PlayTicks", "steps": [], "max": 3000, "snap": 1})
                 return h
         for _ in range(rng.choice([1, 2])):
             r = rng.random()
@@ -176,7 +176,7 @@ def play_history(rng, song, kind="plain"):
             else: h.append({"e": "ChanEn", "c": rng.randrange(nt + 1), "en": 0})
     h += rewind_prelude(rng)
     if rng.random() < 0.5:
-        h.append({"e": "PlayTicks", "steps": [], "max": 3000})
+        h.append({"e": "PlayTicks", "steps": [], "max": 3000, "snap": 1})
     else:
         h.append({"e": "PlayTicks", "steps": [rng.choice([1000, 7000, 33000, 120000, 250000, 1000000]) for _ in range(5)],
                   "gran": rng.choice([0, 0, 2000]), "max": 20000})
